@@ -100,6 +100,52 @@ inductive Err where
   | notImplemented  -- `__torch_function__` returned NotImplemented
   deriving DecidableEq, Repr
 
+/-! ### class options (`@tensorclass(autocast=…, frozen=…, nocast=…, shadow=…)`, `TensorClass[...]`, class keywords) -/
+
+structure ClsOpts where
+  autocast : Bool
+  frozen : Bool
+  nocast : Bool
+  shadow : Bool
+  deriving DecidableEq, Repr
+
+/-- tensorclass.py:_tensorclass_dec.__init__: `autocast` and `nocast` exclude each other (ValueError) -/
+def decoratorOpts (o : ClsOpts) : Except Err ClsOpts :=
+  if o.autocast && o.nocast then .error .value else .ok o
+
+/-- the field-name check of tensorclass.py:_tensorclass on interned names: `if not shadow: for attr in expected_keys:
+if attr in dir(TensorDict) and attr not in ("_is_non_tensor", "data"): raise AttributeError` -/
+def fieldNamesOk (reserved exempt : List Nat) (shadow : Bool) (fields : List Nat) : Bool :=
+  shadow || fields.all (fun f => !(mem f reserved) || mem f exempt)
+
+/-- class creation through the decorator: the option check comes first (`_tensorclass_dec(...)`), then `_tensorclass` -/
+def createDecorated (reserved exempt : List Nat) (o : ClsOpts) (fields : List Nat) : Except Err ClsOpts :=
+  match decoratorOpts o with
+  | .error e => .error e
+  | .ok o => if fieldNamesOk reserved exempt o.shadow fields then .ok o else .error .attr
+
+/-- tensorclass.py:_TensorClassMeta.__new__ (class keywords, `TensorClass["…"]`): `autocast / nocast / frozen` not given
+default to the flags of the base class (`_autocast` …); `shadow` is NOT a parameter — given, it reaches `type.__new__`
+(TypeError), and the class is always built with `shadow=False` (finding C15-subclass-shadow) -/
+def metaOpts (kwAutocast kwNocast kwFrozen : Option Bool) (kwShadowGiven : Bool) (base : Option ClsOpts) : Except Err ClsOpts :=
+  if kwShadowGiven then .error .type
+  else
+    let pick (kw : Option Bool) (b : ClsOpts → Bool) : Bool := kw.getD ((base.map b).getD false)
+    let fr := pick kwFrozen (·.frozen)
+    -- `dataclass(cls, frozen=…)` on a class whose base is a dataclass: python's dataclasses._process_class refuses to mix
+    -- frozen and non-frozen along the inheritance chain (TypeError); `TensorClass` itself is not a dataclass
+    -- (checked by `dataclass`, i.e. after the option check of `_tensorclass_dec`)
+    match decoratorOpts ⟨pick kwAutocast (·.autocast), fr, pick kwNocast (·.nocast), false⟩ with
+    | .error e => .error e
+    | .ok o =>
+      match base with
+      | some b => if b.frozen != o.frozen then .error .type else .ok o
+      | none => .ok o
+
+/-- the class configuration the dispatch model is run on: `frozen=True` makes `dataclass` add `__setattr__` / `__delattr__`
+to the class body -/
+def cfgOf (o : ClsOpts) (fs : List Nat) : ClassCfg := if o.frozen then frozenCfg fs else stdCfg fs
+
 /-- `_non_tensordict`: insertion-ordered dict, `none` = python `None` -/
 abbrev NT (V : Type) := List (String × Option V)
 
@@ -353,6 +399,100 @@ def setField {T V : Type} (fields : List String) (o : Opts) (h : Hint) (tc : TC 
       | .tensor => .ok (setTensor tc key (.leaf a.asTensor))
       | .castable => if o.nocast then tail true else .ok (setTensor tc key (.leaf a.asTensor))
       | _ => tail true
+
+/-- whether `dest.copy_(value)` (the in-place update `TensorDict.set(key, value, inplace=True)` performs on an EXISTING entry,
+`_td.py:_set_str`) succeeds for each of the values `_set` may hand over — tensordict behaviour, supplied from outside -/
+structure CopyOk where
+  asTensor : Bool
+  raw : Bool          -- `NonTensorData(value)`
+  castAccepted : Bool
+  fromDict : Bool
+  castOther : Bool    -- `NonTensorData(target_cls(value))`
+  deriving Repr, DecidableEq
+
+/-- `set_tensor` of tensorclass.py:_set: the placeholder goes, then `self._tensordict.set(key, value, inplace=inplace)`:
+an existing entry is updated in place when `inplace` (a failure of the copy is re-raised as ValueError), otherwise the entry
+is (re)bound, which a locked tensordict refuses -/
+def tdSetEntry {T V : Type} (inplace copyOk : Bool) (tc : TC (TDm T V) V) (key : String) (e : Entry T V) :
+    Except Err (TC (TDm T V) V) :=
+  if inplace && tc.td.keys.contains key then
+    if copyOk then .ok (setTensor tc key e) else .error .value
+  else if tc.td.locked then .error .lock
+  else .ok (setTensor tc key e)
+
+/-- what the type dispatch of tensorclass.py:_set decides to do with the value (independent of the instance):
+raise, store the `None` placeholder, or hand an entry to `set_tensor` — directly (`return set_tensor(...)`) or from the tail
+of the function (`viaTail`), where an in-place write into an existing entry is refused for non-tensor values -/
+inductive SetPlan (T V : Type) where
+  | err (e : Err)
+  | placeholder
+  | entry (copyOk : Bool) (e : Entry T V) (viaTail nonTensor : Bool)
+
+/-- the branches of tensorclass.py:_set between the `expected_keys` check and the writes -/
+def setPlan {T V : Type} (o : Opts) (h : Hint) (ck : CopyOk) (a : SetArg T V) : SetPlan T V :=
+  let tail (nonTensor : Bool) : SetPlan T V :=
+    if a.kind == .none then .placeholder
+    else if nonTensor then .entry ck.raw (.ntData (some a.raw)) true true
+    else .entry ck.asTensor (.leaf a.asTensor) true false
+  if o.autocast then
+    match a.kind, h with
+    | .dict, .collection => .entry ck.fromDict (.leaf a.fromDict) false false
+    | .dict, _ => tail true
+    | .none, _ => tail true
+    | _, .accepted | _, .collection =>
+      match a.castAccepted with
+      | some t => .entry ck.castAccepted (.leaf t) false false
+      | none => .err .type
+    | _, .otherType =>
+      match a.castOther with
+      | some c => .entry ck.castOther (.ntData (some c)) false true
+      | none => .err .type
+    | .castable, .any => .entry ck.asTensor (.leaf a.asTensor) false false
+    | .tensor, .any => tail false
+    | .other, .any => tail true
+  else
+    match a.kind with
+    | .tensor => .entry ck.asTensor (.leaf a.asTensor) false false
+    | .castable => if o.nocast then tail true else .entry ck.asTensor (.leaf a.asTensor) false false
+    | _ => tail true
+
+/-- the writes of tensorclass.py:_set.  `pinned = true` is the code before the repair "autocast … inplace": the tail refused
+EVERY in-place write into an existing entry, tensors included. -/
+def runSetPlan {T V : Type} (inplace pinned : Bool) (tc : TC (TDm T V) V) (key : String) : SetPlan T V → Except Err (TC (TDm T V) V)
+  | .err e => .error e
+  | .placeholder => if inplace && tc.td.keys.contains key then .error .runtime else .ok (setNone tc key)
+  | .entry c e viaTail nonTensor =>
+    if viaTail && inplace && (pinned || nonTensor) && tc.td.keys.contains key then .error .runtime
+    else tdSetEntry inplace c tc key e
+
+/-- mirrors tensorclass.py:_set for a `str` key with the `inplace` flag (`tc.set(key, value, inplace=…)`): the lock
+pre-check (a locked instance only accepts an in-place write into an existing entry), the `expected_keys` check, the type
+dispatch, the writes -/
+def setFieldI {T V : Type} (fields : List String) (o : Opts) (h : Hint) (inplace : Bool) (ck : CopyOk) (pinned : Bool)
+    (tc : TC (TDm T V) V) (key : String) (a : SetArg T V) : Except Err (TC (TDm T V) V) :=
+  if tc.td.locked && !(inplace && tc.td.keys.contains key) then .error .lock
+  else if !fields.contains key then .error .attr
+  else runSetPlan inplace pinned tc key (setPlan o h ck a)
+
+/-- mirrors the tuple-key branch of tensorclass.py:_set (`key = unravel(key)`): a 1-tuple is the string key; a longer one is
+`self.set(key[0], getattr(self, key[0]).set(key[1:], value, inplace=…), inplace=…)` — the nested collection is read, written by
+ITS `set` (opaque: `nestedSet`, which may raise) and stored back under the first key (`o`, `h`: options of the class and hint of that field).  `passInplace = false` is the code
+before the repair: `inplace` was dropped on the way. -/
+def setTuple {T V : Type} (fields : List String) (o : Opts) (h : Hint) (inplace : Bool) (ck : CopyOk) (passInplace : Bool)
+    (nestedSet : T → Except Err T) (tc : TC (TDm T V) V) (key : List String) (a : SetArg T V) : Except Err (TC (TDm T V) V) :=
+  let inp := inplace && passInplace
+  match key with
+  | [] => .error .value
+  | [k] => setFieldI fields o h inp ck false tc k a
+  | k :: _ :: _ =>
+    match getField tc k with
+    | .ok (.tensor t) =>
+      match nestedSet t with
+      | .ok t' => setFieldI fields o h inp ck false tc k
+          { a with kind := .tensor, asTensor := t', castAccepted := some t' }
+      | .error e => .error e
+    | .ok _ => .error .attr           -- `None` / a python object has no `set`
+    | .error e => .error e
 
 /-- the PINNED (pre-fix) autocast branch for a dict value under a collection hint: the value is written
 into `_tensordict` but a `None` placeholder in `_non_tensordict` is left behind -/
